@@ -243,7 +243,12 @@ func runC02(r *Run) {
 		tree := c02Block(rr, 1+rr.Intn(3))
 		src := c02Src(tree)
 		if full {
-			src = "<!DOCTYPE html><html><head><title>" + c02Text(rr) + "</title></head><body>" + src + "</body></html>"
+			htmlAttr := Pick(rr, []string{"", "", ` lang="en"`, ` lang="en" data-x="a &amp; b"`})
+			bodyAttr := Pick(rr, []string{"", "", ` class="wide"`, ` id="it's" class="a b"`})
+			lead := Pick(rr, []string{"", "", "", "<!-- lead -->", "\n"})
+			trail := Pick(rr, []string{"", "", "\n", "<!-- generated by x -->", "\n<!-- a -->\n", "  "})
+			closeTag := Pick(rr, []string{"</html>", "</html>", "</html>", "</HTML>", "</html >"})
+			src = lead + "<!DOCTYPE html><html" + htmlAttr + "><head><title>" + c02Text(rr) + "</title></head><body" + bodyAttr + ">" + src + "</body>" + closeTag + trail
 		}
 		p1 := c02Parse(src, full)
 		var out string
